@@ -145,6 +145,8 @@ func main() {
 		err = modeGrow()
 	case "growmerge":
 		err = modeGrowMerge()
+	case "trace":
+		err = modeTrace()
 	case "minimise":
 		err = modeMinimise()
 	case "replaycheck":
@@ -293,7 +295,7 @@ func modeExport() error {
 	if *fBurst {
 		mode = "burst"
 		r := runSeed(*fSeed^0xb0057, *fFrom)
-		plan, _ := genPlan(r, refs)
+		plan, _ := genBurstPlan(r, refs)
 		for ti := range plan.Tasks {
 			for oi := range plan.Tasks[ti].Ops {
 				plan.Tasks[ti].Ops[oi].Scribble = false
@@ -609,6 +611,9 @@ func workLoop(st *stats, refs *refTable, c workCfg, side *sideWriter) {
 		}
 		r := runSeed(c.seed, idx)
 		plan, info := genPlan(r, refs)
+		if info.Hammer {
+			st.Faults["hammer-run"]++
+		}
 		res := execRun(plan, execOpts{rng: r, cfg: info.Cfg, refs: refs})
 		st.account(plan, &info, res)
 		side.add(idx, res)
@@ -875,6 +880,17 @@ func modePreempt() error {
 			cl = pool.byClass[clsCorpus]
 		}
 		a := pool.ops[cl[r.intn(len(cl))]]
+		if ai%3 == 2 {
+			// every third A: a call that fails on an input of some size (error paths build and
+			// consult the state that successful parses never touch)
+			for tries := 0; tries < 200; tries++ {
+				j := r.intn(len(pool.ops))
+				if refs.e[j].bad && len(pool.inputs[pool.ops[j].Input].text) >= 300 && pool.ops[j].Entry < eSplit {
+					a = pool.ops[j]
+					break
+				}
+			}
+		}
 		var bs []opKey
 		bs = append(bs, a)
 		if c := pool.byPath[a.Path]; len(c) > 0 {
@@ -884,9 +900,7 @@ func modePreempt() error {
 			bs = append(bs, pool.ops[c[r.intn(len(c))]])
 		}
 		bs = append(bs, pool.ops[r.intn(len(pool.ops))])
-		if ai%*fOf != *fW {
-			continue // the PRNG stream is the same in every worker; the work is split by A
-		}
+		// (the PRNG stream is the same in every worker; the work is split by schedule, below)
 		tr := soloTrace(a)
 		first := map[uint32]int{}
 		last := map[uint32]int{}
@@ -918,6 +932,9 @@ func modePreempt() error {
 				rare := uint32(1 << 30)
 				if i := int(p - 2); i >= 0 && i < len(tr) && int(tr[i]) < len(refs.siteOps) {
 					rare = refs.siteOps[tr[i]]
+					if rt.SiteClass[tr[i]]&16 != 0 {
+						rare = 0 // in a function that mentions a package-level variable: always kept
+					}
 				}
 				cs = append(cs, cand{p, rare})
 			}
@@ -946,31 +963,74 @@ func modePreempt() error {
 			order = append(order, p)
 		}
 		sort.Slice(order, func(i, j int) bool { return order[i] < order[j] })
-		// histories: what task 0 did before A (varies from schedule to schedule)
-		var hs []*opKey
-		hs = append(hs, nil)
-		for _, c := range []int{clsEdge, clsCorrupt, clsSibling, clsChurn} {
-			if l := pool.byClass[c]; len(l) > 0 {
-				k := pool.ops[l[r.intn(len(l))]]
-				hs = append(hs, &k)
+		// histories: what task 0 did before A - a chain of 0, 1, 2, 4 or 8 calls (varies from
+		// schedule to schedule) drawn from calls related to A (same family, same path, same
+		// class) and a few unrelated ones: what fills, rotates and evicts small caches
+		// the chain is made of DISTINCT inputs that end like A ends (with an error, or cleanly)
+		// and are of A's kind (same family, then same class, then same path): what makes
+		// "k misses of the same cache" likely; a few unrelated calls at the end
+		var hpool []opKey
+		aBad := refs.e[pool.opIdx[a]].bad
+		seenIn := map[uint32]bool{a.Input: true}
+		addH := func(l []int32, n int, matchBad bool) {
+			for tries := 0; tries < 12*n && n > 0 && len(l) > 0; tries++ {
+				j := l[r.intn(len(l))]
+				k := pool.ops[j]
+				if seenIn[k.Input] || (matchBad && refs.e[j].bad != aBad) || k.Entry >= eSplit {
+					continue
+				}
+				// of A's size (within a factor of two): size thresholds treat them alike
+				if la, lk := len(pool.inputs[a.Input].text), len(pool.inputs[k.Input].text); matchBad && tries < 8*n && (2*lk < la || lk > 2*la+64) {
+					continue
+				}
+				seenIn[k.Input] = true
+				hpool = append(hpool, k)
+				n--
 			}
 		}
-		if c := pool.byFamily[pool.inputs[a.Input].family]; len(c) > 0 {
-			k := pool.ops[c[r.intn(len(c))]]
-			hs = append(hs, &k)
+		addH(pool.byFamily[pool.inputs[a.Input].family], 4, true)
+		addH(pool.byClass[pool.inputs[a.Input].class], 8, true)
+		addH(pool.byPath[a.Path], 2, true)
+		for _, c := range []int{clsEdge, clsCorrupt, clsSibling, clsChurn} {
+			addH(pool.byClass[c], 1, false)
 		}
-		if c := pool.byPath[a.Path]; len(c) > 0 {
-			k := pool.ops[c[r.intn(len(c))]]
-			hs = append(hs, &k)
+		if os.Getenv("VERIF_DEBUG_SWEEP") != "" {
+			g := 0
+			for _, st := range tr {
+				if rt.SiteClass[st]&16 != 0 {
+					g++
+				}
+			}
+			var lens []int
+			for _, h := range hpool {
+				lens = append(lens, len(pool.inputs[h.Input].text))
+			}
+			fmt.Fprintf(os.Stderr, "A#%d %s bad=%v len=%d yields=%d points=%d global-site-yields=%d hpool=%v\n", ai, a, aBad, len(pool.inputs[a.Input].text), len(tr), len(order), g, lens)
 		}
-		for _, b := range bs {
+		chainLens := []int{0, 1, 1, 2, 4, 4, 8}
+		bs = append(bs, opKey{Entry: 255}) // marker: B = the oldest call of the history chain
+		for _, b0 := range bs {
 			for _, i := range order {
 				job++
 				t0 := TaskPlan{}
 				aOp := 0
-				if h := hs[job%len(hs)]; h != nil {
-					t0.Ops = append(t0.Ops, OpPlan{Key: *h, Shared: -1})
-					aOp = 1
+				b := b0
+				if k := chainLens[job%len(chainLens)]; k > 0 && len(hpool) > 0 {
+					off := r.intn(3) // the calls most like A come first in hpool
+					for j := 0; j < k && j < len(hpool); j++ {
+						t0.Ops = append(t0.Ops, OpPlan{Key: hpool[(off+j)%len(hpool)], Shared: -1})
+						aOp++
+					}
+				}
+				if b.Entry == 255 {
+					if len(t0.Ops) > 0 {
+						b = t0.Ops[0].Key // the reader asks for what the writer is about to evict
+					} else {
+						b = a
+					}
+				}
+				if job%*fOf != *fW {
+					continue
 				}
 				t0.Ops = append(t0.Ops, OpPlan{Key: a, Shared: -1, Fresh: job%3 == 0})
 				plan := &Plan{Tasks: []TaskPlan{t0, {Ops: []OpPlan{{Key: b, Shared: -1, Fresh: job%2 == 0}}}}}
@@ -1027,7 +1087,10 @@ func modeBurst() error {
 			break
 		}
 		r := runSeed(*fSeed^0xb0057, idx)
-		plan, info := genPlan(r, refs)
+		plan, info := genBurstPlan(r, refs)
+		if info.Hammer {
+			st.Faults["hammer-burst"]++
+		}
 		// bursts: no scribbling (a report with a library frame must be a library race)
 		for ti := range plan.Tasks {
 			for oi := range plan.Tasks[ti].Ops {
@@ -1186,7 +1249,7 @@ func replayPrefix(rf *ReplayFile) error {
 	for attempt := 0; attempt < 3; attempt++ {
 		for idx := p.First; idx <= p.Last+20*p.Stride; idx += p.Stride {
 			r := runSeed(p.Seed^0xb0057, idx)
-			plan, _ := genPlan(r, refs)
+			plan, _ := genBurstPlan(r, refs)
 			for ti := range plan.Tasks {
 				for oi := range plan.Tasks[ti].Ops {
 					plan.Tasks[ti].Ops[oi].Scribble = false
@@ -1204,6 +1267,25 @@ func replayPrefix(rf *ReplayFile) error {
 		}
 	}
 	fmt.Printf("NOT-REPRODUCED: %d bursts re-executed, no race report and every oracle held\n", n)
+	return nil
+}
+
+// modeTrace (debugging aid): the sequence of yield sites of operation -k of a replay file,
+// one line per yield: in-operation yield number (as used by [task, n, op] segments), site.
+func modeTrace() error {
+	rf, err := readReplay(*fFile)
+	if err != nil {
+		return err
+	}
+	if _, err := installReplayPool(rf); err != nil {
+		return err
+	}
+	if *fK < 0 || *fK >= len(pool.ops) {
+		return fmt.Errorf("bad -k")
+	}
+	for i, site := range soloTrace(pool.ops[*fK]) {
+		fmt.Printf("%d\t%s\n", i+2, rt.SiteName[site])
+	}
 	return nil
 }
 
